@@ -464,6 +464,7 @@ class ResTarget(object):
         import weakref
         ResTarget.registry["instances"].append(weakref.ref(self))
         self.mine = []
+        harness_yield("constructor")      # (a constructor takes time: other threads may run meanwhile)
 
     def track(self, label, n):
         out = []
@@ -484,6 +485,10 @@ class ResTarget(object):
             if res is r:
                 ResTarget.registry["resources"][i] = (lab, res, "untracked")
         return r.name
+
+    @server.oneway
+    def ow_touch(self, label):
+        return None
 
     def churn(self, label):
         """tracks a short-lived resource that is dropped without being untracked (and collected at once), then a new one - which
